@@ -15,8 +15,8 @@ INF = float('inf')
 def rows(spec, index_of, kext_of=None):
     out = []
     obj_t = spec['obj']
-    n0 = 1.0
-    k0 = 0.0
+    n0 = index_of(spec.get('obj_mat', 'air'), 1.0)
+    k0 = kext_of(spec.get('obj_mat', 'air'), 0.0) if kext_of else 0.0
     out.append(dict(shape='plane', R=INF, k=0.0, z=-obj_t, x=0.0, y=0.0, rx=0.0, ry=0.0, rz=0.0,
                     n_pre=n0, n_post=n0, k_pre=k0, k_post=k0, mirror=False, stop=False, t=obj_t,
                     aperture=None, coating=None))
